@@ -255,7 +255,8 @@ def tie_b_kernels(res, workdir, parts=('ck', 'ubx', 'nmea')):
         res.notes['tie_B_kernels'] = 'unavailable: generated Kernels.v does not type-check: ' + out[-400:]
         return False
     allok = True
-    for part, fname in (('ck', 'BridgeCk.v'), ('ubx', 'BridgeUbx.v'), ('nmea', 'BridgeNmea.v'), ('frame', 'BridgeFrame.v')):
+    for part, fname in (('ck', 'BridgeCk.v'), ('ubx', 'BridgeUbx.v'), ('nmea', 'BridgeNmea.v'), ('frame', 'BridgeFrame.v'),
+                        ('cfgkeys', 'BridgeCfgKeys.v')):
         if part not in parts:
             continue
         dst = os.path.join(gen, fname)
